@@ -141,7 +141,9 @@ def reducer (cls m : String) (p s : Json) (payload : Json) : Except String Json 
     let pp ← chainP p; let st ← chainS s
     match m with
     | "use" => pure (exc (PoisonChain.use pp st) chainSJ)
-    | "elapse" => let r := PoisonChain.elapse pp (← int payload) st; pure (out (chainSJ r.1) r.2)
+    | "elapse" =>
+      if ¬ st.periodic.WF then throw "PoisonChainComponent.elapse: periodic outside WF" else
+      let r := PoisonChain.elapse pp (← int payload) st; pure (out (chainSJ r.1) r.2)
     | _ => bad
   | "DotPunisherComponent" =>
     let pp ← punisherP p; let st ← attackS s
@@ -154,7 +156,9 @@ def reducer (cls m : String) (p s : Json) (payload : Json) : Except String Json 
     let pp ← ifrittP p; let st ← periodicS s
     match m with
     | "use" => pure (exc (Ifritt.use pp st) periodicSJ)
-    | "elapse" => let r := Ifritt.elapse pp (← int payload) st; pure (out (periodicSJ r.1) r.2)
+    | "elapse" =>
+      if ¬ st.periodic.WF then throw "IfrittComponent.elapse: periodic outside WF" else
+      let r := Ifritt.elapse pp (← int payload) st; pure (out (periodicSJ r.1) r.2)
     | _ => bad
   | "InfernalVenom" =>
     let pp ← venomP p; let st ← venomS s
@@ -177,17 +181,21 @@ def reducer (cls m : String) (p s : Json) (payload : Json) : Except String Json 
   | "JupyterThunder" =>
     let pp ← jupyterP p; let st ← jupyterS s
     match m with
-    | "use" => pure (exc (JupyterThunder.use pp st) jupyterSJ)
+    | "use" =>
+      if ¬ (0 < pp.maxCount ∧ JupyterThunder.Inv pp st) then throw "JupyterThunder.use: max_count <= 0 or state outside Inv" else
+      pure (exc (JupyterThunder.use pp st) jupyterSJ)
     | "elapse" =>
-      if ¬ st.periodic.WF then throw "JupyterThunder.elapse: periodic outside WF" else
+      if ¬ JupyterThunder.Inv pp st then throw "JupyterThunder.elapse: state outside Inv" else
       let r := JupyterThunder.elapse pp (← int payload) st; pure (out (jupyterSJ r.1) r.2)
     | _ => bad
   | "ThunderBreak" =>
     let pp ← breakP p; let st ← breakS s
     match m with
-    | "use" => pure (exc (ThunderBreak.use pp st) breakSJ)
+    | "use" =>
+      if ¬ (0 < pp.maxCount ∧ ThunderBreak.Inv pp st) then throw "ThunderBreak.use: max_count <= 0 or state outside Inv" else
+      pure (exc (ThunderBreak.use pp st) breakSJ)
     | "elapse" =>
-      if ¬ st.periodic.WF then throw "ThunderBreak.elapse: periodic outside WF" else
+      if ¬ ThunderBreak.Inv pp st then throw "ThunderBreak.elapse: state outside Inv" else
       let r := ThunderBreak.elapse pp (← int payload) st; pure (out (breakSJ r.1) r.2)
     | _ => bad
   | "ChainLightningVIComponent" =>
@@ -208,7 +216,9 @@ def reducer (cls m : String) (p s : Json) (payload : Json) : Except String Json 
     let pp ← minionP p; let st ← minionS s
     match m with
     | "use" => pure (exc (DivineMinion.use pp st) minionSJ)
-    | "elapse" => let r := DivineMinion.elapse pp (← int payload) st; pure (out (minionSJ r.1) r.2)
+    | "elapse" =>
+      if ¬ st.periodic.WF then throw "DivineMinion.elapse: periodic outside WF" else
+      let r := DivineMinion.elapse pp (← int payload) st; pure (out (minionSJ r.1) r.2)
     | _ => bad
   | "HexaAngelRayComponent" =>
     let pp ← rayP p; let st ← rayS s
